@@ -4,7 +4,8 @@
    [sig_inv s] ("a shutdown signal has been counted only if cancellation has begun") holds of every
    initial state and of every state reachable from one (C10_reachable). *)
 From Coq Require Import List NArith ZArith Bool Sorted.
-From NextestModel Require Import Model.Result Model.Dispatcher Proofs.Result Proofs.Dispatcher.
+From NextestModel Require Import Model.Result Model.Dispatcher Model.Unit
+     Proofs.Result Proofs.Dispatcher Proofs.Unit.
 Import ListNotations.
 Open Scope N_scope.
 
@@ -127,6 +128,30 @@ Theorem C10_third_signal_panics :
 Proof. exact third_signal_panics. Qed.
 Print Assumptions C10_third_signal_panics.
 
+(* The repair of finding F10, dispatcher side: handle_event itself addresses a single unit exactly
+   when that unit reports a failed attempt (with retries left) while the run is being cancelled;
+   the request it repeats to it is OtherCancel. *)
+Theorem C10_unit_told_again :
+  forall d e s' evs rsp t,
+    dstep (Live d) e = (s', evs, rsp) ->
+    (r_unit rsp = Some t <->
+     exists a, e = AttemptFailedWillRetry t a /\ d_cancel d <> None /\ s' <> Panicked).
+Proof. exact dstep_unicast_iff. Qed.
+Print Assumptions C10_unit_told_again.
+
+(* "... rather than sitting out retry delays" (model level): over the dispatcher, the executor
+   protocol and the units' request channels ([sys_step]: broadcasts reach every unit in
+   running_tests, a unit whose attempt is running may take requests off its channel at any time
+   and ignores OtherCancel, a unit in the delay between attempts leaves it as soon as a cancel
+   request is in its channel) no unit is ever in a retry delay of a run that is being cancelled
+   with an empty channel -- for every well-formed schedule [xs] of events and channel reads. *)
+Theorem C10_ends_promptly :
+  forall c mf dbg xs y,
+    cfg_ok c = true -> sys_run true c (sys0 c mf dbg) xs = Some y ->
+    forall t, stuck_in_delay y t = false.
+Proof. exact ends_promptly. Qed.
+Print Assumptions C10_ends_promptly.
+
 (* ---- non-vacuity: closed examples (vm_compute) ---- *)
 
 Example ex_reasons :
@@ -170,3 +195,21 @@ Example ex_script_failure :
          (trace (Live (init 1 None true)) [ScriptStarted 0; ScriptFinished 0 ExecFail; ScriptStarted 1; Started 0])
      = [HAccepted; HNone; HRefused; HRefused].
 Proof. split; vm_compute; reflexivity. Qed.
+
+(* F10's witness: fail-fast; test 0 fails while test 1's first attempt is running; unit 1 takes the
+   OtherCancel off its channel and ignores it; its attempt then fails with retries left. Without
+   the per-unit repeat ([unicast = false], the dispatcher before the repair) unit 1 is stuck in its
+   retry delay; with it, it is not. *)
+Example F10_witness_before_repair :
+  match sys_run false f10_cfg (sys0 f10_cfg (Some 1) true) f10_witness with
+  | Some y => stuck_in_delay y 1
+  | None => false
+  end = true.
+Proof. vm_compute. reflexivity. Qed.
+
+Example F10_witness_after_repair :
+  match sys_run true f10_cfg (sys0 f10_cfg (Some 1) true) f10_witness with
+  | Some y => negb (stuck_in_delay y 1)
+  | None => false
+  end = true.
+Proof. vm_compute. reflexivity. Qed.
